@@ -451,7 +451,7 @@ func c06History(r *ev.Run, id string, rng *rand.Rand, nOps int) {
 				fail("wrong-reply:interleaved transmit timestamp is not the transmit time recorded for that reply", op.Shape,
 					map[string]any{"got": t64u(resp.TransmitTime), "want": t64u(sh.tx), "updated": sh.updated})
 			}
-			if (sh.updated || sh.clockGt) && !t64After(resp.TransmitTime, req.OriginTime) {
+			if !t64After(resp.TransmitTime, req.OriginTime) { // also before the update of that exchange, whatever the clock read when it was handled
 				fail("wrong-reply:interleaved transmit timestamp not later than the receive timestamp it belongs to", op.Shape, nil)
 			}
 			if sh.updated {
